@@ -75,8 +75,8 @@ def guard_holds(fx, rs, fn_suffix, guard, kernel, want):
     return bad == 0, "%d of %d paths reach %s without `%s` == %s" % (bad, reach, kernel, guard, want)
 
 
-R9_CONTROL_BAD = {"bad_add", "bad_scale", "bad_index", "bad_abs", "bad_dependent"}
-R9_CONTROL_GOOD = {"good_add", "good_scale", "good_index", "good_loop", "good_dependent", "good_narrow", "good_flag", "good_flag_int"}
+R9_CONTROL_BAD = {"bad_add", "bad_scale", "bad_index", "bad_abs", "bad_dependent", "bad_guard_helper"}
+R9_CONTROL_GOOD = {"good_add", "good_scale", "good_index", "good_loop", "good_dependent", "good_narrow", "good_flag", "good_flag_int", "good_guard_helper"}
 
 
 def r9(run, fx):
